@@ -255,32 +255,45 @@ def split_execs(recs):
     return res
 
 
-def validate_batch(ctx, recs, name, module="Trace_Mtbl", cfg=None):
-    """Validate a batch of executions (separated by Reset). On rejection, bisect to the failing execution,
-    re-validate it alone; returns list of (exec_records, failing_line) for executions rejected twice."""
+def validate_batch(ctx, recs, name, module="Trace_Mtbl", cfg=None, max_bad=8):
+    """Validate a batch of executions (separated by Reset). On rejection the failing execution is located from the
+    depth TLC reached, re-validated alone (a rejection counts only if it repeats at the same line), and validation
+    continues with the executions after it. Returns list of (exec_records, failing_line)."""
     d = ctx.sub("traces")
-    p = os.path.join(d, name + ".ndjson")
-    write_trace(p, recs)
-    ok, depth, r = validate_trace(p, module, cfg)
-    ctx.add("trace_events", len(recs))
-    ctx.add("trace_states", r.distinct)
-    if ok:
-        ctx.add("traces_validated_against_impl", len(split_execs(recs)))
-        return []
     bad = []
     execs = split_execs(recs)
-    for n, ex in enumerate(execs):
-        q = os.path.join(d, "%s.x%d.ndjson" % (name, n))
-        write_trace(q, ex)
+    start = 0
+    rnd = 0
+    while start < len(execs) and len(bad) < max_bad:
+        part = [r for ex in execs[start:] for r in ex]
+        p = os.path.join(d, "%s.%d.ndjson" % (name, rnd))
+        rnd += 1
+        write_trace(p, part)
+        ok, depth, r = validate_trace(p, module, cfg)
+        ctx.add("trace_events", len(part) if ok else max(0, (depth or 1) - 1))
+        ctx.add("trace_states", r.distinct)
+        if ok:
+            ctx.add("traces_validated_against_impl", len(execs) - start)
+            break
+        line = depth or 1
+        acc = 0
+        idx = start
+        for i in range(start, len(execs)):
+            if acc + len(execs[i]) >= line:
+                idx = i
+                break
+            acc += len(execs[i])
+        ctx.add("traces_validated_against_impl", idx - start)
+        q = os.path.join(d, "%s.x%d.ndjson" % (name, idx))
+        write_trace(q, execs[idx])
         ok1, depth1, _ = validate_trace(q, module, cfg)
-        if ok1:
+        if not ok1:
+            ok2, depth2, _ = validate_trace(q, module, cfg)
+            if not ok2 and depth2 == depth1:
+                bad.append((execs[idx], depth1))
+        else:
             ctx.add("traces_validated_against_impl", 1)
-            continue
-        ok2, depth2, _ = validate_trace(q, module, cfg)      # a rejection counts only if it repeats
-        if not ok2 and depth2 == depth1:
-            bad.append((ex, depth1))
-        elif ok2:
-            ctx.add("traces_validated_against_impl", 1)
+        start = idx + 1
     return bad
 
 
